@@ -35,6 +35,16 @@ import (
 // `x:I(x)` (raw 10^-18 value of integral(x) obtained as Cost(0,x) of an 18/18-decimals copy of the
 // curve — `integral` itself is unexported) and `s:p:T` (TokensApproximation(s,p) raw, or `err`).
 // Tokens after `|` on an input line are ignored and recomputed (so any line replays).
+//
+// Many plans (Model/IroPlans): a trace may register further rollapps, each a "slot" with its own owner,
+// traders, denoms, plan and curve; all other op lines address the CURRENT slot.
+//   newra            register a further rollapp; it becomes the current slot
+//   sel <k>          make slot k current
+//   restart          export the whole application state, initialise a fresh application from it with the
+//                    production InitChainer (Fix.ImportedCopy) and CONTINUE ON THE IMPORTED CHAIN
+//   reset … | <n>    the oracle suffix of reset is the LastPlanId of the application the trace starts on
+// Every observation starts with `<class> <cur> <plan id of the current rollapp|-> <LastPlanId> <#plans> ;`
+// (the id is read through GetPlanByRollapp); the observation of `restart` shows every slot.
 
 var c13ErrTable = []ErrMap{
 	{irotypes.ErrPlanNotFound, "notfound"},
@@ -61,11 +71,25 @@ type c13Snap struct {
 	sold, liq math.Int
 }
 
+// c13Slot: one rollapp of a trace (the fields of the same names in c13 are the CURRENT slot's)
+type c13Slot struct {
+	rollapp, raDenom, iroDenom, planID string
+	curve                              irotypes.BondingCurve
+	actors                             []sdk.AccAddress
+	base                               []math.Int
+	besOK, trades, streakActor         int
+	streakBes                          bool
+	streak                             []c13Snap
+}
+
 type c13 struct {
 	r     *Run
 	f     *Fix
 	tr    int // traces started
 	onFix int
+	raSeq int // rollapps registered (names)
+	slots []c13Slot
+	cur   int
 
 	// configuration of the current trace
 	n        int
@@ -201,7 +225,8 @@ func (c *c13) modAddr() sdk.AccAddress {
 	return c.f.App.AccountKeeper.GetModuleAddress(irotypes.ModuleName)
 }
 
-func (c *c13) state() string {
+// slotState: plan, accounts of the plan / module and of the slot's actors
+func (c *c13) slotState() string {
 	ps := "-"
 	planLiq := math.ZeroInt()
 	if p, ok := c.plan(); ok {
@@ -214,6 +239,27 @@ func (c *c13) state() string {
 		accts = append(accts, fmt.Sprintf("%s,%s,%s", c.f.Bal(a, c.liq).Sub(c.base[i]), c.f.Bal(a, c.iroDenom), c.f.Bal(a, c.raDenom)))
 	}
 	return fmt.Sprintf("%s | %s %s %s | %s", ps, planLiq, c.f.Bal(c.modAddr(), c.iroDenom), c.f.Bal(c.modAddr(), c.raDenom), strings.Join(accts, " "))
+}
+
+// storePid: the plan id the store's by-rollapp index holds for the current rollapp
+func (c *c13) storePid() string {
+	if p, ok := c.k().GetPlanByRollapp(c.f.Ctx, c.rollapp); ok {
+		return strconv.FormatUint(p.Id, 10)
+	}
+	return "-"
+}
+
+func (c *c13) nPlans() int { return len(c.k().GetAllPlans(c.f.Ctx, false)) }
+
+func (c *c13) state() string {
+	return fmt.Sprintf("%d %s %d %d ; %s", c.cur, c.storePid(), c.k().GetLastPlanId(c.f.Ctx), c.nPlans(), c.slotState())
+}
+
+// stateAll: every slot (the observation of `restart`)
+func (c *c13) stateAll() string {
+	var parts []string
+	c.forAll(func(k int) { parts = append(parts, fmt.Sprintf("[%d %s %s]", k, c.storePid(), c.slotState())) })
+	return fmt.Sprintf("%d %d %d ; %s", c.cur, c.k().GetLastPlanId(c.f.Ctx), c.nPlans(), strings.Join(parts, " "))
 }
 
 func (c *c13) now() time.Duration { return c.f.Time.Sub(c.t0) }
@@ -256,14 +302,25 @@ func (c *c13) reset(fl []string) string {
 		c.liq = fmt.Sprintf("liq%d", c.L)
 	}
 	c.ensureDenom(c.liq, c.L)
-	name := "vf" + c13Letters(c.tr)
-	c.rollapp = fmt.Sprintf("%s_%d-1", name, 100000+c.tr)
+	c.slots, c.cur = []c13Slot{{}}, 0
+	c.newRollapp(0)
+	c.t0 = c.f.Time
+	c.kinds, c.nontrivial = nil, false
+	return "ok"
+}
+
+// newRollapp registers the rollapp of slot k (own owner and traders) and makes its fields current
+func (c *c13) newRollapp(k int) {
+	c.raSeq++
+	name := "vf" + c13Letters(c.raSeq)
+	c.rollapp = fmt.Sprintf("%s_%d-1", name, 100000+c.raSeq)
 	c.raDenom = "ibc/RA" + strings.ToUpper(name)
 	c.iroDenom = irotypes.IRODenom(c.rollapp)
 	c.planID = ""
+	c.curve = irotypes.BondingCurve{}
 	c.actors = nil
 	for i := 0; i < c.n; i++ {
-		c.actors = append(c.actors, Actor(c.tr*16+i))
+		c.actors = append(c.actors, Actor(c.tr*16+i+k*10000000))
 	}
 	owner := c.actors[0]
 	apptesting.FundForAliasRegistration(c.f.App, c.f.Ctx, name, owner.String())
@@ -285,10 +342,30 @@ func (c *c13) reset(fl []string) string {
 	for _, a := range c.actors {
 		c.base = append(c.base, c.f.Bal(a, c.liq))
 	}
-	c.t0 = c.f.Time
 	c.trades, c.streakActor, c.streak, c.besOK, c.streakBes = 0, -1, nil, 0, false
-	c.kinds, c.nontrivial = nil, false
-	return "ok"
+}
+
+func (c *c13) save() {
+	c.slots[c.cur] = c13Slot{c.rollapp, c.raDenom, c.iroDenom, c.planID, c.curve, c.actors, c.base, c.besOK, c.trades, c.streakActor, c.streakBes, c.streak}
+}
+
+func (c *c13) load(k int) {
+	s := c.slots[k]
+	c.rollapp, c.raDenom, c.iroDenom, c.planID, c.curve, c.actors, c.base = s.rollapp, s.raDenom, s.iroDenom, s.planID, s.curve, s.actors, s.base
+	c.besOK, c.trades, c.streakActor, c.streakBes, c.streak = s.besOK, s.trades, s.streakActor, s.streakBes, s.streak
+	c.cur = k
+}
+
+// forAll runs fn with every slot loaded in turn and restores the current one
+func (c *c13) forAll(fn func(k int)) {
+	c.save()
+	cur := c.cur
+	for k := range c.slots {
+		c.load(k)
+		fn(k)
+		c.save()
+	}
+	c.load(cur)
 }
 
 func (c *c13) class(err error) string { return ErrClass(err, c13ErrTable) }
@@ -312,7 +389,8 @@ func (c *c13) exec(line string) (obs string, suffix string) {
 	}
 	if fl[0] == "reset" {
 		c.lines = []string{main}
-		return c.reset(fl), ""
+		obs = c.reset(fl)
+		return obs, fmt.Sprintf("| %d", c.k().GetLastPlanId(c.f.Ctx))
 	}
 	if c.f == nil {
 		return "bad-op", ""
@@ -327,7 +405,43 @@ func (c *c13) exec(line string) (obs string, suffix string) {
 	cls := ""
 	kind := fl[0]
 	ok := false
+	all := false
 	switch fl[0] {
+	case "newra":
+		c.save()
+		c.slots = append(c.slots, c13Slot{})
+		c.cur = len(c.slots) - 1
+		c.newRollapp(c.cur)
+		planBefore, hadPlan = irotypes.Plan{}, false
+		cls = "ok"
+	case "sel":
+		k, _ := strconv.Atoi(fl[1])
+		if k < 0 || k >= len(c.slots) {
+			cls = "badslot"
+			break
+		}
+		c.save()
+		c.load(k)
+		cls = "ok"
+	case "restart":
+		all = true
+		f2, _, _, ierr := c.f.ImportedCopy()
+		if ierr != nil && c18ImportClass(ierr) == "vfbc-deploy-needs-proposer" {
+			// known C18 finding (the VFBC deployment at InitChain needs a proposer in the header): continue
+			// with a proposer, as the generic C18 hook does
+			f2, _, _, ierr = c.f.ImportedCopyOpt(true)
+		}
+		if ierr != nil {
+			cls = "import-failed"
+			post = append(post, func() {
+				c.viol("C13/restart/exported-genesis-rejected/"+c18ImportClass(ierr), trunc200("InitChainer failed on the exported state: "+ierr.Error()))
+			})
+			break
+		}
+		c.f = f2
+		lastFix = f2
+		c.fixProposer()
+		cls = "ok"
 	case "create":
 		curve := irotypes.BondingCurve{M: c13Dec(fl[2]), N: c13Dec(fl[3]), C: c13Dec(fl[4]), RollappDenomDecimals: 18}
 		l, _ := strconv.Atoi(fl[5])
@@ -500,6 +614,9 @@ func (c *c13) exec(line string) (obs string, suffix string) {
 	}
 	ok = cls == "ok"
 	after := c.state()
+	if all {
+		after = c.stateAll()
+	}
 	full := main
 	if len(orc) > 0 {
 		suffix = "| " + strings.Join(orc, " ")
@@ -507,7 +624,7 @@ func (c *c13) exec(line string) (obs string, suffix string) {
 	}
 	c.lines = append(c.lines, full)
 	// a rejected op must leave everything observable untouched
-	if !ok && kind != "time" {
+	if !ok && kind != "time" && kind != "restart" {
 		if after != before || digest != c.f.StoreDigest("iro") {
 			c.viol("C13/atomic/rejected-op-changed-state", fmt.Sprintf("class %s: before `%s` after `%s`", cls, before, after))
 		}
@@ -515,7 +632,12 @@ func (c *c13) exec(line string) (obs string, suffix string) {
 	for _, fn := range post {
 		fn()
 	}
-	c.monitorState()
+	if ok && (kind == "create" || kind == "restart") && len(c.slots) > 1 {
+		// a new plan / a restart must leave every other plan where it was
+		c.forAll(func(int) { c.monitorState() })
+	} else {
+		c.monitorState()
+	}
 	c.kinds = append(c.kinds, kind+"/"+cls)
 	if ok && kind != "time" && kind != "fund" {
 		c.nontrivial = true
@@ -529,6 +651,22 @@ func (c *c13) exec(line string) (obs string, suffix string) {
 // monitorState: clauses that must hold after every op
 func (c *c13) monitorState() {
 	p, ok := c.plan()
+	if c.planID != "" {
+		// the id handed out at creation must keep naming this rollapp's plan, and the index must agree
+		if !ok {
+			c.viol("C13/plans/plan-record-missing", fmt.Sprintf("slot %d: plan %s of %s is gone", c.cur, c.planID, c.rollapp))
+		} else if p.RollappId != c.rollapp {
+			c.viol("C13/plans/plan-replaced-by-another-rollapp", fmt.Sprintf("slot %d: plan id %s of %s now names the plan of %s", c.cur, c.planID, c.rollapp, p.RollappId))
+			c.onFix = 1 << 30
+			return
+		}
+		if sp := c.storePid(); sp != c.planID {
+			c.viol("C13/plans/index-names-another-id", fmt.Sprintf("slot %d: created as plan %s, GetPlanByRollapp finds %s", c.cur, c.planID, sp))
+		}
+		if id, _ := strconv.ParseUint(c.planID, 10, 64); id > c.k().GetLastPlanId(c.f.Ctx) {
+			c.viol("C13/plans/last-plan-id-below-existing-id", fmt.Sprintf("plan %s exists, LastPlanId is %d", c.planID, c.k().GetLastPlanId(c.f.Ctx)))
+		}
+	}
 	if !ok {
 		return
 	}
@@ -841,4 +979,46 @@ func c13Corpus(c *c13) {
 		}
 		c.r.Hit("corpus/witness-trace")
 	}
+	c13ManyPlans(c)
+}
+
+// c13ManyPlans: the directed restart trace.  Twelve rollapps with a plan each (so at least eleven plans
+// exist whatever the application held before: the plan section is walked 1,10,11,…,2,…,9 and the LAST
+// exported plan is not the one with the largest id), a holder on every plan; restart; a thirteenth plan
+// is created (it must get a fresh id); then every old plan is settled and its holder claims 1:1.
+func c13ManyPlans(c *c13) {
+	const alloc = "1000000000000000000000"
+	create := "create " + alloc + " 0 1000000000000000000 1000000000000000000 18 1 0 3600 500000000000000000 3 0"
+	c.do("reset 20000000000000000 1000000000000000000 400000000000000000 0 0 0 3 " + alloc + " 18")
+	for k := 0; k < 12; k++ {
+		if k > 0 {
+			c.do("newra")
+		}
+		c.do("fund 0 " + alloc)
+		c.do("fund 1 " + alloc)
+		c.do(create)
+		c.do(fmt.Sprintf("buy 1 %d000000000000000000 %s", 5+k, alloc))
+	}
+	c.do("restart")
+	c.do("newra")
+	c.do("fund 0 " + alloc)
+	c.do(create)
+	c.do("fund 1 " + alloc)
+	c.do("buy 1 7000000000000000000 " + alloc)
+	for k := 0; k < 12; k++ {
+		c.do(fmt.Sprintf("sel %d", k))
+		if k%2 == 0 {
+			c.do("sell 1 1000000000000000000 1")
+		}
+		c.do("settle " + alloc)
+		c.do("claim 1")
+		c.do("claim 1")
+		c.do("time 1")
+		c.do("claimv 0")
+	}
+	c.do("restart")
+	c.do("sel 12")
+	c.do("settle " + alloc)
+	c.do("claim 1")
+	c.r.Hit("corpus/many-plans-restart")
 }
